@@ -2,7 +2,8 @@
 (* Mode B generator for C07: every base document (rule, correlation, extended correlation,
    filter) mutated at EVERY path: the value replaced by a scalar / list / map of another type,
    by out-of-range texts, the entry deleted, the key replaced (also by non-string keys); plus
-   seeded random nested data as whole documents.  Shard = base document (5 = random data).   *)
+   seeded random nested data as whole documents.  Shard = base document (5 = random data,
+   6 = collection actions: global / repeat documents merged with the rule).   *)
 EXTENDS Loader, LoaderDocs, Json, IOUtils, Randomization, TLC
 VARIABLE x
 Quick == IOEnv.VERIF_TIER = "quick"
@@ -12,7 +13,10 @@ Replacements == {NStr(T_x), NStr(<<>>), NInt(5), NInt(0 - 1), NFloat(3, 2), NBoo
                  NList(<<NStr(T_x), NNull>>), NMap(<<>>), NMap(<<(<<T_a, NInt(1)>>)>>), NMap(<<(<<T_a, NMap(<<>>)>>)>>),
                  NStr(<<50,48,50,52,45,49,51,45,52,53>>),      \* 2024-13-45
                  NStr(<<53,120>>), NStr(<<48,109>>),           \* 5x  0m
-                 NStr(<<42>>), NStr(<<97,32,111,114>>)}        \* *   "a or"
+                 NStr(<<42>>), NStr(<<97,32,111,114>>),        \* *   "a or"
+                 NFloat(1, 0), NFloat(0, 0),                   \* .inf  .nan  (denominator 0 marks the special floats)
+                 NList(<<NList(<<NStr(T_x)>>)>>), NList(<<NMap(<<>>), NInt(2)>>),     \* nested list, list of map and number
+                 NInt(2147483647)}
 \* key markers understood by the driver: \x01i = integer 5, \x01b = true, \x01n = null
 Keys == {T_x, <<>>, <<1, 105>>, <<1, 98>>, <<1, 110>>, <<120, 124, 122, 122>>}
 Base == CASE Shard = 1 -> BaseRule [] Shard = 2 -> BaseCorr [] Shard = 3 -> BaseCorrExt [] OTHER -> BaseFilter
@@ -24,6 +28,19 @@ Mutants ==
     \cup {[kind |-> Kind, mut |-> "rekey", doc |-> Rekey(Base, p, k)] : p \in {q \in Paths(Base) : IsEntry(q)}, k \in Keys}
     \cup {[kind |-> Kind, mut |-> "root", doc |-> v] : v \in Replacements}
     \cup {[kind |-> Kind, mut |-> "none", doc |-> Base]}
+\* collection actions: the base rule (mutated at every path) loaded AFTER a global action document
+\* whose entries it is merged with, and a mutated global / repeat document around the valid base rule
+GKeys == {<<100,101,116,101,99,116,105,111,110>>, <<108,111,103,115,111,117,114,99,101>>, <<116,97,103,115>>, <<108,101,118,101,108>>}
+UnderGKeys == {q \in Paths(BaseRule) : Len(q) \in 1..2 /\ q[1][1] = "k" /\ BaseRule.kv[q[1][2]][1] \in GKeys}
+ActionMutants ==
+    {[kind |-> "global+rule", mut |-> "replace", doc |-> Replace(BaseRule, p, v)] :
+        p \in UnderGKeys, v \in Replacements}
+    \cup {[kind |-> "global+rule", mut |-> "delete", doc |-> Delete(BaseRule, p)] :
+        p \in UnderGKeys}
+    \cup {[kind |-> k, mut |-> "replace", doc |-> Replace(BaseGlobal, p, v)] :
+        k \in {"global*+rule", "rule+repeat*"}, p \in Paths(BaseGlobal) \ {<<>>}, v \in Replacements}
+    \cup {[kind |-> k, mut |-> "root", doc |-> v] : k \in {"global*+rule", "rule+repeat*"}, v \in Replacements}
+    \cup {[kind |-> k, mut |-> "none", doc |-> BaseGlobal] : k \in {"global*+rule", "rule+repeat*"}}
 \* random nested data
 RECURSIVE RandNode(_)
 RandNode(depth) ==
@@ -40,7 +57,7 @@ RandNode(depth) ==
                                      <<99,111,114,114,101,108,97,116,105,111,110>>, <<102,105,108,116,101,114>>, <<99,111,110,100,105,116,105,111,110>>,
                                      <<105,100>>, T_x}) \o <<48 + i>> , RandNode(depth - 1)>>])
 Randoms == {[kind |-> RandomElement({"rule", "corr", "filter"}), mut |-> "random", doc |-> RandNode(3)] : j \in 1..(IF Quick THEN 300 ELSE 5000)}
-ASSUME LET S == SetToSeq(IF Shard = 5 THEN Randoms ELSE Mutants)
+ASSUME LET S == SetToSeq(IF Shard = 5 THEN Randoms ELSE IF Shard = 6 THEN ActionMutants ELSE Mutants)
        IN  ndJsonSerialize(IOEnv.VERIF_OUT, [i \in 1..Len(S) |-> [id |-> Shard * 1000000 + i] @@ S[i]])
 Init == x = 0
 Next == UNCHANGED x
